@@ -493,24 +493,36 @@ class RuntimeV1_0(Runtime):
         body = event["flow_body"]
         body = "define flow " + flow_id + ":\n" + indent(body, "  ")
 
-        # We parse the flow
-        parsed_data = parse_colang_file("dynamic.co", content=body)
+        # The body of a dynamic flow is generated by the LLM. It was validated on its own,
+        # but it can still fail to parse as a flow definition or fail when started.
+        # In that case, we fall back to a general response rather than breaking the turn.
+        try:
+            # We parse the flow
+            parsed_data = parse_colang_file("dynamic.co", content=body)
 
-        assert len(parsed_data["flows"]) == 1
-        flow = parsed_data["flows"][0]
+            assert len(parsed_data["flows"]) == 1
+            flow = parsed_data["flows"][0]
 
-        # To make sure that the flow will start now, we add a start_flow element at
-        # the beginning as well.
-        flow["elements"].insert(0, {"_type": "start_flow", "flow_id": flow_id})
+            # To make sure that the flow will start now, we add a start_flow element at
+            # the beginning as well.
+            flow["elements"].insert(0, {"_type": "start_flow", "flow_id": flow_id})
 
-        # We add the flow to the list of flows.
-        self._load_flow_config(flow)
+            # We add the flow to the list of flows.
+            self._load_flow_config(flow)
 
-        # And we compute the next steps. The new flow should match the current event,
-        # and start.
+            # And we compute the next steps. The new flow should match the current event,
+            # and start.
 
-        next_steps = await self._compute_next_steps(
-            events, processing_log=processing_log
-        )
+            next_steps = await self._compute_next_steps(
+                events, processing_log=processing_log
+            )
+        except Exception as e:
+            log.warning("Could not start the dynamic flow %s: %s", flow_id, e)
+            self.flow_configs.pop(flow_id, None)
+            return [new_event_dict("BotIntent", intent="general response")]
+
+        # If the flow starts by waiting for something, there is nothing else to do now.
+        if len(next_steps) == 0:
+            next_steps = [new_event_dict("Listen")]
 
         return next_steps
